@@ -1,8 +1,8 @@
 CONSTANTS
-  MaxLen = 4
-  MaxVal = 3
+  MaxLen = 1
+  MaxVal = 1
   Export = TRUE
-  TableVariant = 1
+  TableVariant = 2
 INIT Init
 NEXT Next
 INVARIANT Laws
